@@ -413,6 +413,22 @@ def run_solver_tests(ctx):
                 and np.array_equal(d2.U_.values, d3.U_.values)):
             ctx.violation("C15:seed", "equal inputs with equal random_state=%d give different results" % seed,
                           dict(kind="seed", s=s, seed=seed))
+        # steeply decaying spectra within the requested modes, on both SVD front-ends (Decomposer: models; SVD: the PCA step)
+        if i % 2 == 0:
+            from xeofs.linalg.svd import SVD
+            kk = int(r.integers(6, 11))
+            ratio = float(r.choice([0.5, 0.3]))
+            ss = [10.0 * ratio ** j for j in range(kk)] + [1e-9] * 4
+            ns, ps = int(r.integers(40, 70)), int(r.integers(len(ss) + 2, 40))
+            Xs = xr.DataArray(make_matrix(ss, ns, ps, r), dims=("sample", "feature"))
+            for front, run in (("Decomposer", lambda sv: (lambda d: (d.fit(Xs), d.s_.values, d.V_.values))(Decomposer(n_modes=kk, solver=sv, random_state=seed))),
+                               ("SVD", lambda sv: (lambda o: (None, np.asarray(o[1].values), np.asarray(o[2].values)))(SVD(n_modes=kk, solver=sv, random_state=seed).fit_transform(Xs)))):
+                _, s_full, V_full = run("full")
+                _, s_rand, V_rand = run("randomized")
+                ctx.case(("steep", front, kk, ratio, i), tag="solver-test:steep:" + front)
+                if not np.allclose(s_full, s_rand, rtol=1e-6, atol=1e-9) or not np.allclose(V_full @ V_full.T, V_rand @ V_rand.T, atol=1e-6):
+                    ctx.violation("C15:exact-vs-randomized:steep:" + front, "%s: full and randomized disagree on a steep spectrum (ratio %g, %d modes, gap after the last one): "
+                                  "singular values %r vs %r" % (front, ratio, kk, s_full[-3:], s_rand[-3:]), dict(kind="solver", s=ss, seed=seed, front=front))
         # the same seed on the complex (scipy svds) and dask (svd_compressed) back-ends
         try:
             import dask.array as dsa
